@@ -52,6 +52,10 @@ def holds(spec, toks):
             if d < 0:
                 return False
         return d == 0 and all(m in toks for m in spec['markers'])
+    if mode == 'strlit':
+        # markers present and some string literal left (whatever its text)
+        return (all(m in toks for m in spec.get('markers', []))
+                and any(t.startswith('"') for t in toks))
     if mode == 'app':
         # some application ( head X ) of `head` to exactly one atom
         hd = spec['head']
